@@ -280,6 +280,85 @@ def _plain_spec(spec):
     return {"t": spec["t"], "lab": spec["lab"], "len": spec["len"], "ch": [_plain_spec(c) for c in spec["ch"]]}
 
 
+NEXML_HEAD = ('<?xml version="1.0" encoding="ISO-8859-1"?>\n<nex:nexml version="0.9" '
+              'xmlns:nex="http://www.nexml.org/2009" xmlns="http://www.nexml.org/2009" '
+              'xmlns:xsi="http://www.w3.org/2001/XMLSchema-instance" '
+              'xmlns:xml="http://www.w3.org/XML/1998/namespace" '
+              'xmlns:xsd="http://www.w3.org/2001/XMLSchema#">\n')
+
+
+def write_nexml_trees(otus_id, otu_ids, otu_labels, blocks, prefix=""):
+    """Hand-written NeXML: one <otus> element (ids and labels as given) and one <trees> element per block.
+    blocks: [[(spec, rooted)]], spec "t" = index into otu_ids.  prefix: put in front of trees / tree / node / edge ids."""
+    out = NEXML_HEAD + '  <otus id="%s">\n' % otus_id
+    for oid, lab in zip(otu_ids, otu_labels):
+        out += '    <otu id="%s" label="%s"/>\n' % (oid, lab)
+    out += "  </otus>\n"
+    k = 0
+    for b, trees in enumerate(blocks):
+        out += '  <trees id="%strees%d" otus="%s">\n' % (prefix, b + 1, otus_id)
+        for spec, rooted in trees:
+            k += 1
+            out += '    <tree id="%stree%d" xsi:type="nex:FloatTree">\n' % (prefix, k)
+            ids = {}
+            nodes = shapes.spec_nodes(spec)
+            for i, sp in enumerate(nodes):
+                ids[id(sp)] = "%sn%d_%d" % (prefix, k, i)
+                attrs = ' id="%s"' % ids[id(sp)]
+                if sp["t"] is not None:
+                    attrs += ' otu="%s"' % otu_ids[sp["t"]]
+                if sp["lab"] is not None:
+                    attrs += ' label="%s"' % sp["lab"]
+                if i == 0 and rooted:
+                    attrs += ' root="true"'
+                out += "      <node%s/>\n" % attrs
+            e = 0
+            for sp in nodes:
+                for c in sp["ch"]:
+                    e += 1
+                    L = "" if c["len"] is None else ' length="%r"' % c["len"]
+                    out += '      <edge id="%se%d_%d" source="%s" target="%s"%s/>\n' % (prefix, k, e, ids[id(sp)], ids[id(c)], L)
+            out += "    </tree>\n"
+        out += "  </trees>\n"
+    return out + "</nex:nexml>\n"
+
+
+@st.composite
+def nexml_families(draw, max_files=3, max_taxa=5, max_trees=2):
+    """2-3 hand-written NeXML files over ONE label set.  The files usually use the SAME otus id and the same otu ids
+    (tax1; t1..tn - what hand-written and many exported files do) with a different id -> label assignment each, so a
+    reader object that outlives one file must not carry its id maps over.  Each file is a document
+    {"text", "schema": "nexml", "leaf_labels": [[label of every leaf, left to right] per tree], "sizes": [...]}."""
+    ntax = draw(st.integers(2, max_taxa))
+    labels = draw(st.lists(st.sampled_from(NEXML_LABELS), min_size=ntax, max_size=ntax, unique_by=lambda s: s.lower()))
+    collide = draw(st.integers(0, 3)) > 0
+    single_block = draw(st.booleans())
+    files = []
+    for f in range(draw(st.integers(2, max_files))):
+        perm = list(draw(st.permutations(labels)))
+        otu_ids = ["t%d" % (k + 1) for k in range(ntax)]
+        blocks, leaf_labels = [], []
+        for b in range(1 if single_block else draw(st.integers(1, 2))):
+            trees = []
+            for _ in range(draw(st.integers(1, max_trees))):
+                n = draw(st.integers(1, ntax))
+                spec = draw(shapes.shapes(min_leaves=n, max_leaves=n, max_arity=3))
+                sel = list(draw(st.permutations(list(range(ntax)))))
+                lens = draw(st.booleans())
+                for k, sp in enumerate(shapes.spec_nodes(spec)):
+                    if sp["t"] is not None:
+                        sp["t"] = sel[sp["t"]]
+                    if lens and k:
+                        sp["len"] = draw(st.sampled_from(NEXML_LENGTHS))
+                trees.append((spec, draw(st.booleans())))
+                leaf_labels.append([perm[sp["t"]] for sp in shapes.spec_nodes(spec) if not sp["ch"]])
+            blocks.append(trees)
+        text = write_nexml_trees("tax1" if collide else "tax%d" % (f + 1), otu_ids, perm, blocks,
+                                 prefix="" if collide else "f%d" % (f + 1))
+        files.append({"text": text, "schema": "nexml", "leaf_labels": leaf_labels, "sizes": [len(b) for b in blocks]})
+    return files
+
+
 def features_of(doc):
     """{"translate", "comment", "weight", "blocks", "ntrees"} of a lib/docs.py or c13 document (text scan for the former)."""
     if doc.get("features"):
